@@ -403,6 +403,9 @@ func (e *evObs) OnEvent(t upstream.Event) {
 
 const blockedTimeout = 40 * time.Second // only to detect "blocked"
 const silentTimeout = 250 * time.Millisecond
+const wireTimeout = 15 * time.Second
+
+var wireGaveUp atomic.Bool
 
 type sessResult struct {
 	kind string
@@ -464,9 +467,14 @@ func runSession(id string, listening, withObserver bool, steps []stepIn) (res se
 			opens = hx.Some(hx.N(uint64(ob.opens.Load() - o0)))
 		}
 		// the UDP server always gets the query; wait for it to have looked at it
+		wait := wireTimeout
+		if wireGaveUp.Load() { // a query already went missing: do not spend the timeout on every step
+			wait = silentTimeout
+		}
 		select {
 		case <-st.wireCh:
-		case <-time.After(blockedTimeout):
+		case <-time.After(wait):
+			wireGaveUp.Store(true)
 		}
 		st.mu.Lock()
 		wid, wsum := 99999, uint64(0)
@@ -560,7 +568,7 @@ func genStep(r *hx.RNG, thorough bool) stepIn {
 		if r.Chance(1, 12) && in.qn == 0 {
 			in.t.bn = r.Intn(2) // 12 or 13 byte frame
 		}
-		if thorough && r.Chance(1, 20) {
+		if thorough && r.Chance(1, 60) {
 			in.t.bn = r.Range(20000, 65535-12-in.qn)
 		}
 	}
